@@ -278,6 +278,7 @@ func (c *Ctx) Finish(verifDir, tier string, seed int64, started time.Time, level
 			"helper_calls_inlined":  relSites(c.P.Repo, c.P.NormSites),
 			"helpers_left_as_calls": c.P.NormSkipped,
 			"notes":                 c.P.NormNotes,
+			"symbols_renamed_back":  c.P.Renames,
 		},
 	}
 	for k, v := range extra {
